@@ -56,6 +56,8 @@ pub enum Kind {
     JsonArray,
     /// channel C: ron 0.8 over simulated streams
     Ron { style: u8, write: IoPlan, read: IoPlan },
+    /// channel C: the optional-alpha helpers on ron (palette's own output, or the plain color's output when `missing`)
+    RonOptional { style: u8, missing: bool },
     /// channel D
     Value,
 }
@@ -71,6 +73,7 @@ impl Kind {
             Kind::JsonOptional { .. } => "json-optional-alpha",
             Kind::JsonArray => "json-as_array",
             Kind::Ron { .. } => "ron",
+            Kind::RonOptional { .. } => "ron-optional-alpha",
             Kind::Value => "json-value",
         }
     }
@@ -105,11 +108,11 @@ fn sweep_presentations() -> Vec<Presentation> {
     let mut v = Vec::new();
     for kf in KEY_FORMS {
         for (order, alpha_pos) in [(0u8, 255u8), (1, 0), (2, 1)] {
-            v.push(Presentation { struct_as: StructAs::Map, key_form: kf, alpha_pos, order, size_hint: alpha_pos != 0, alpha_present: true, unknown_key_at: None });
+            v.push(Presentation { struct_as: StructAs::Map, key_form: kf, alpha_pos, order, size_hint: alpha_pos != 0, alpha_present: true, unknown_key_at: None, strict_option: order == 2 });
         }
     }
     for hint in [true, false] {
-        v.push(Presentation { struct_as: StructAs::Seq, key_form: KeyForm::BorrowedStr, alpha_pos: 255, order: 0, size_hint: hint, alpha_present: true, unknown_key_at: None });
+        v.push(Presentation { struct_as: StructAs::Seq, key_form: KeyForm::BorrowedStr, alpha_pos: 255, order: 0, size_hint: hint, alpha_present: true, unknown_key_at: None, strict_option: hint });
     }
     v
 }
@@ -280,6 +283,7 @@ fn gen_presentation(rng: &mut Rng, c: &CaseDesc) -> Presentation {
         size_hint: rng.chance(1, 2),
         alpha_present: !has_alpha || rng.chance(5, 6),
         unknown_key_at: if rng.chance(1, 6) { Some(rng.below(5) as u8) } else { None },
+        strict_option: rng.chance(1, 2),
     }
 }
 
@@ -319,7 +323,7 @@ impl World for C20 {
         }
         let c = self.cases[(index % self.cases.len() as u64) as usize];
         let faults = rng.chance(4, 10);
-        let kind_pick = rng.below(20);
+        let kind_pick = rng.below(22);
         let struct_like = c.shape == Shape::Struct;
         let has_alpha = c.wrapper != Wrapper::None;
         let (kind, raw) = match kind_pick {
@@ -383,6 +387,7 @@ impl World for C20 {
                 (Kind::JsonOptional { doc }, false)
             }
             15 if c.arr.is_some() => (Kind::JsonArray, false),
+            19 if c.opt.is_some() => (Kind::RonOptional { style: rng.below(3) as u8, missing: c.shape != Shape::Unit && rng.chance(1, 2) }, false),
             16..=18 => {
                 let len_hint = 24 + c.nvals * 18;
                 let (fw, fr) = (faults && rng.chance(1, 2), faults && rng.chance(1, 2));
@@ -448,6 +453,7 @@ impl World for C20 {
                         Presentation { unknown_key_at: None, ..pres.clone() },
                         Presentation { size_hint: true, ..pres.clone() },
                         Presentation { struct_as: StructAs::Map, ..pres.clone() },
+                        Presentation { strict_option: false, ..pres.clone() },
                     ] {
                         if p != *pres {
                             out.push(with(Kind::Sim { pres: p, ser_fail: *ser_fail, de_fail: *de_fail }));
@@ -479,6 +485,11 @@ impl World for C20 {
                 }
                 if *doc != Doc::Serialized {
                     out.push(with(Kind::Json { write: write.clone(), read: read.clone(), doc: Doc::Serialized }));
+                }
+            }
+            Kind::RonOptional { style, missing } => {
+                if *style != 0 {
+                    out.push(with(Kind::RonOptional { style: 0, missing: *missing }));
                 }
             }
             Kind::Ron { style, write, read } => {
@@ -531,6 +542,8 @@ impl World for C20 {
                 "unknown-key-ignored",
                 "duplicate-alpha-rejected",
                 "raw-bit-patterns",
+                "optional-alpha-defaulted-ron",
+                "optional-alpha-present-ron",
             ],
             expected_faults: vec!["peer:error@call-k(ser)", "peer:error@call-k(de)", "io:short-read", "io:short-write", "io:EINTR", "io:error@byte-k", "io:EOF@byte-k", "io:write-zero"],
             time_note: "palette has no clock; simulated time is reported as steps_executed (= data-model calls and I/O calls)",
@@ -639,6 +652,26 @@ fn judge_shape(ctx: &mut Ctx<'_>, c: &CaseDesc, inner: Option<&CaseDesc>, tok: &
                 return bad(ctx, "a unit color with alpha must become a newtype struct around alpha".into());
             }
         }
+        (Shape::Tuple, w) => {
+            let Tok::Tuple { declared_len, items } = tok else {
+                return bad(ctx, "expected a tuple".into());
+            };
+            let n = c.nvals;
+            if items.len() != n || *declared_len != n || !items.iter().all(|t| t.is_scalar()) {
+                return bad(ctx, format!("tuple declares {declared_len}, sends {}, expected {n} numbers ({w:?})", items.len()));
+            }
+        }
+        (Shape::UnitType, Wrapper::None) => {
+            if !matches!(tok, Tok::Unit) {
+                return bad(ctx, "expected the unit value".into());
+            }
+        }
+        (Shape::UnitType, _) => {
+            let ok = matches!(tok, Tok::Tuple { declared_len: 1, items } if items.len() == 1 && items[0].is_scalar());
+            if !ok {
+                return bad(ctx, "the unit type with alpha must become a tuple of one (alpha)".into());
+            }
+        }
     }
     // against the unwrapped color's own tree
     if let Some(ic) = inner {
@@ -651,6 +684,8 @@ fn judge_shape(ctx: &mut Ctx<'_>, c: &CaseDesc, inner: Option<&CaseDesc>, tok: &
                 (Tok::TupleStruct { name: n1, fields: f1, .. }, Tok::TupleStruct { name: n2, fields: f2, .. }) => n1 == n2 && f1.len() == f2.len() + 1 && f1[..f2.len()] == f2[..],
                 (Tok::TupleStruct { name: n1, fields: f1, .. }, Tok::Newtype { name: n2, inner }) => n1 == n2 && f1.len() == 2 && f1[0] == **inner,
                 (Tok::Newtype { name: n1, .. }, Tok::UnitStruct { name: n2 }) => n1 == n2,
+                (Tok::Tuple { items: f1, .. }, Tok::Tuple { items: f2, .. }) => f1.len() == f2.len() + 1 && f1[..f2.len()] == f2[..],
+                (Tok::Tuple { items: f1, .. }, Tok::Unit) => f1.len() == 1,
                 _ => false,
             };
             if !same_prefix {
@@ -714,7 +749,7 @@ fn json_doc(c: &CaseDesc, vals: &[f64], doc: &Doc) -> Option<String> {
             Some(format!("{open}{}{close}", body.join(sep)))
         }
         Doc::Array { spaces } => {
-            if matches!(c.shape, Shape::Hue | Shape::Unit) || (c.shape == Shape::Newtype && !has_alpha) {
+            if matches!(c.shape, Shape::Hue | Shape::Unit) || (matches!(c.shape, Shape::Newtype | Shape::UnitType) && !has_alpha) {
                 return None; // those are bare values in JSON, not sequences
             }
             let sep = if *spaces { " , " } else { "," };
@@ -1267,6 +1302,47 @@ fn execute(c: &'static CaseDesc, inner: Option<&'static CaseDesc>, vals: &[f64],
                 }
             }
         }
+        Kind::RonOptional { style, missing } => {
+            let Some(opt) = c.opt.as_ref() else { return };
+            let key = format!("optional-alpha:{}", c.name);
+            let st = match style % 3 {
+                0 => RonStyle::Compact,
+                1 => RonStyle::Named,
+                _ => RonStyle::Pretty,
+            };
+            // without alpha: exactly what palette writes for the plain color
+            let missing = *missing && c.shape != Shape::Unit && inner.is_some();
+            let text = match (missing, inner) {
+                (true, Some(ic)) => (ic.ops.ron_string)(vals, st),
+                _ => (c.ops.ron_string)(vals, st),
+            };
+            let document = match text {
+                Ok(t) => t,
+                Err(e) => {
+                    ctx.fail("serialize-failed", &key, format!("{}: ron::to_string failed: {e}", c.name));
+                    return;
+                }
+            };
+            let mut expect = vals.to_vec();
+            if missing {
+                expect[c.nvals - 1] = max_alpha(c);
+            }
+            let got = (opt.ron_from_str)(&document, &expect);
+            ctx.state(&(c.name, kname, *style % 3, missing, got.is_ok()));
+            ev!(ctx, "optional-alpha RON document {document:?} -> ok={}", got.is_ok());
+            match got {
+                Ok(o) => {
+                    if judge_value(ctx, c, "deserialize_with_optional_alpha (RON)", &key, &o, &expect) {
+                        return;
+                    }
+                    ctx.probe(if missing { "optional-alpha-defaulted-ron" } else { "optional-alpha-present-ron" });
+                }
+                Err(e) => {
+                    ctx.checked();
+                    ctx.fail("optional-alpha-failed", &key, format!("{}: optional-alpha deserialization of the RON document {document:?} failed: {e}", c.name));
+                }
+            }
+        }
         Kind::Value => {
             let key = format!("json-value:{}", c.name);
             ctx.state(&(c.name, kname));
@@ -1327,7 +1403,14 @@ fn json_shape_problem(c: &CaseDesc, vals: &[f64], text: &str) -> Option<String> 
             let body: Vec<String> = keys.iter().zip(nums.iter()).map(|(k, v)| format!("\"{k}\":{v}")).collect();
             format!("{{{}}}", body.join(","))
         }
-        Shape::TupleStruct => format!("[{}]", nums.join(",")),
+        Shape::TupleStruct | Shape::Tuple => format!("[{}]", nums.join(",")),
+        Shape::UnitType => {
+            if has_alpha {
+                format!("[{}]", nums.join(","))
+            } else {
+                "null".to_string()
+            }
+        }
         Shape::Newtype => {
             if has_alpha {
                 format!("[{}]", nums.join(","))
